@@ -785,6 +785,201 @@ def cancel (s : State) (pid : Nat) (who : Addr) : Except String State :=
                    settled := s.settled ++ (depsOf s.deps pid).map
                      (fun d => ⟨d.pid, d.who, d.amt, .cancel (d.amt - (d.amt - mulTrunc d.amt s.params.cancelRatio))⟩) }
 
+/-! ## the SDK keeper functions, statement by statement (round 4)
+
+`CancelProposal`, `DeleteProposal`, `deleteVotes`, `ChargeDeposit`, `RefundAndDeleteDeposits` and `DeleteAndBurnDeposits` are
+code of the Cosmos SDK version that `/repo/go.mod` selects; their statement lists are regenerated from the module cache
+(`sdkCancelSteps`, `sdkDeleteProposalSteps`, `sdkDeleteVotesSteps`, `sdkChargeSteps`, `sdkChargeBody`, `sdkChargeCoin`,
+`sdkChargeDest`, `sdkRefundCallback`, `sdkBurnSteps`, `sdkBurnCallback`) and interpreted here, tag by tag in source order.
+`Proofs/C15Sdk.lean` proves the interpreted runs equal to the one-piece functions above (`cancel`, `refundDeposits`,
+`burnDeposits`) for the lists the source has now; `step` runs `cancelRun`. -/
+
+/-- locals of `DeleteProposal` / `CancelProposal`: the store, the local `proposal`, the error returned so far -/
+structure SdkLocals where
+  s : State
+  p : Option Proposal := none
+  err : Option String := none
+
+/-- one top-level statement of `DeleteProposal` -/
+def deleteProposalStep (pid : Nat) (l : SdkLocals) (tag : String) : SdkLocals :=
+  if l.err.isSome then l else
+  if tag == "getProposal" then
+    match findProp l.s.props pid with
+    | none => { l with err := some "err:notfound" }
+    | some p => { l with p := some p }
+  else
+    match l.p with
+    | none => l
+    | some p =>
+      -- `DepositEndTime` is set at submission; `VotingEndTime` is nil before activation and no entry `(0, pid)` exists then
+      if tag == "removeInactive" then { l with s := { l.s with inactive := removeQ (p.depositEnd, pid) l.s.inactive } }
+      else if tag == "removeActive" then { l with s := { l.s with active := removeQ (p.votingEnd, pid) l.s.active } }
+      else if tag == "removeProposal" then { l with s := { l.s with props := dropProp l.s.props pid } }
+      else l
+
+/-- `DeleteProposal`, statement by statement -/
+def deleteProposalRun (pid : Nat) (s : State) : State :=
+  (sdkDeleteProposalSteps.foldl (deleteProposalStep pid) { s := s }).s
+
+/-- `deleteVotes` -/
+def deleteVotesRun (pid : Nat) (s : State) : State :=
+  if sdkDeleteVotesSteps.contains "rangeOfProposal" && sdkDeleteVotesSteps.contains "clearVotes" then
+    { s with votes := votesNot s.votes pid } else s
+
+/-- the coin loop of `ChargeDeposit` is the expected one: `burnAmount := trunc(amount·rate)`, `remaining += amount −
+burnAmount`, `charges += burnAmount` -/
+def chargeCoinOk : Bool :=
+  sdkChargeCoin == ["burnAmount=trunc(amount*rate)", "remaining+=amount-burnAmount", "charges+=burnAmount"]
+
+/-- locals of `ChargeDeposit`: module balance, account balances, `remainingAmount` of the current deposit,
+`cancellationCharges`, a failed bank transfer -/
+structure ChargeLocals where
+  g : Nat
+  b : List (Addr × Nat)
+  keep : Nat := 0
+  chg : Nat := 0
+  failed : Bool := false
+
+/-- one statement of the body of the loop over the deposits -/
+def chargeBodyStep (rate : Nat) (d : Dep) (l : ChargeLocals) (tag : String) : ChargeLocals :=
+  if l.failed then l else
+  if tag == "remaining0" then { l with keep := 0 }
+  else if tag == "coinLoop" then
+    -- one coin per deposit (one deposit denom); for a rate ≤ 1 the charge `amount − (amount − burnAmount)` is `burnAmount`
+    if chargeCoinOk then
+      { l with keep := l.keep + (d.amt - mulTrunc d.amt rate), chg := l.chg + (d.amt - (d.amt - mulTrunc d.amt rate)) }
+    else l
+  else if tag == "refundRemaining" then
+    if l.g < l.keep then { l with failed := true } else { l with g := l.g - l.keep, b := credit l.b d.who l.keep }
+  else l
+
+/-- the loop over the deposits of the proposal -/
+def chargeRunLoop (rate : Nat) : List Dep → ChargeLocals → ChargeLocals
+  | [], l => l
+  | d :: r, l => chargeRunLoop rate r (sdkChargeBody.foldl (chargeBodyStep rate d) l)
+
+/-- what the switch over the destination does with the charges: the first case whose condition holds -/
+def chargeDestAct (dest : Nat) : List String → String
+  | [] => "none"
+  | c :: r =>
+    if c == "destAddress == \"\" => burn" then (if dest == 0 then "burn" else chargeDestAct dest r)
+    else if c == "distributionAddress.String() == destAddress => fundCommunityPool" then
+      (if dest == 1 then "fundCommunityPool" else chargeDestAct dest r)
+    else if c == "default => sendToDest" then "sendToDest"
+    else chargeDestAct dest r
+
+/-- one top-level statement of `ChargeDeposit(proposalID, params.ProposalCancelDest, params.ProposalCancelRatio)`;
+`none` = a bank transfer failed -/
+def chargeTopStep (pid : Nat) (acc : Option (State × ChargeLocals)) (tag : String) : Option (State × ChargeLocals) :=
+  match acc with
+  | none => none
+  | some (s, l) =>
+    if tag == "depositLoop" then
+      let l' := chargeRunLoop s.params.cancelRatio (depsOf s.deps pid) l
+      if l'.failed then none else
+      some ({ s with gov := l'.g, bal := l'.b,
+                     deps := if sdkChargeBody.contains "removeDeposit" then depsNot s.deps pid else s.deps,
+                     settled := s.settled ++ (depsOf s.deps pid).map
+                       (fun d => ⟨d.pid, d.who, d.amt, .cancel (d.amt - (d.amt - mulTrunc d.amt s.params.cancelRatio))⟩) }, l')
+    else if tag == "payCharges" then
+      if s.gov < l.chg then none else
+      let act := chargeDestAct s.params.cancelDest sdkChargeDest
+      some ({ s with gov := s.gov - l.chg,
+                     bal := if act == "sendToDest" && s.params.cancelDest ≥ 2 then credit s.bal (s.params.cancelDest - 2) l.chg else s.bal,
+                     burned := if act == "burn" then s.burned + l.chg else s.burned,
+                     charged := if act == "fundCommunityPool" then s.charged + l.chg else s.charged }, l)
+    else some (s, l)
+
+/-- `ChargeDeposit`, top-level statements in source order -/
+def chargeDepositRun (pid : Nat) (s : State) : Option State :=
+  (sdkChargeSteps.foldl (chargeTopStep pid) (some (s, { g := s.gov, b := s.bal }))).map (·.1)
+
+/-- one top-level statement of `CancelProposal` -/
+def cancelStepI (pid : Nat) (who : Addr) (l : SdkLocals) (tag : String) : SdkLocals :=
+  if l.err.isSome then l else
+  if tag == "getProposal" then
+    match findProp l.s.props pid with
+    | none => { l with err := some "err:notfound" }
+    | some p => { l with p := some p }
+  else
+    match l.p with
+    | none => l
+    | some p =>
+      if tag == "checkProposer" then (if p.proposer != who then { l with err := some "err:proposer" } else l)
+      else if tag == "checkOpen" then
+        (if !(p.status == .deposit || p.status == .voting) then { l with err := some "err:inactive" } else l)
+      else if tag == "checkNotEnded" then
+        (if p.status == .voting && p.votingEnd < l.s.time then { l with err := some "err:ended" } else l)
+      else if tag == "chargeDeposit" then
+        match chargeDepositRun pid l.s with
+        | none => { l with err := some "err:funds" }
+        | some s' => { l with s := s' }
+      else if tag == "deleteVotesIfStarted" then (if p.status == .voting then { l with s := deleteVotesRun pid l.s } else l)
+      else if tag == "deleteProposal" then { l with s := deleteProposalRun pid l.s }
+      else l
+
+/-- `MsgCancelProposal` → `CancelProposal`, statement by statement in the order the SDK source has -/
+def cancelRun (s : State) (pid : Nat) (who : Addr) : Except String State :=
+  let l := sdkCancelSteps.foldl (cancelStepI pid who) { s := s }
+  match l.err with
+  | some e => .error e
+  | none => .ok l.s
+
+/-- the callback of the `IterateDeposits` walk of `RefundAndDeleteDeposits` for one deposit: (module balance, balances,
+record removed, failed) -/
+def refundCallback (d : Dep) (acc : Nat × List (Addr × Nat) × Bool × Bool) (tag : String) : Nat × List (Addr × Nat) × Bool × Bool :=
+  let (g, b, removed, failed) := acc
+  if failed then acc else
+  if tag == "send" then (if g < d.amt then (g, b, removed, true) else (g - d.amt, credit b d.who d.amt, removed, false))
+  else if tag == "remove" then (g, b, true, failed)
+  else acc
+
+/-- the walk: every deposit of the proposal in key order; `none` = a transfer fails; the flag says whether every visited
+record was removed -/
+def refundWalk : List Dep → Nat → List (Addr × Nat) → Option (Nat × List (Addr × Nat) × Bool)
+  | [], g, b => some (g, b, true)
+  | d :: r, g, b =>
+    match sdkRefundCallback.foldl (refundCallback d) (g, b, false, false) with
+    | (g', b', removed, failed) =>
+      if failed then none else
+      match refundWalk r g' b' with
+      | none => none
+      | some (g'', b'', rm) => some (g'', b'', removed && rm)
+
+/-- `RefundAndDeleteDeposits`, interpreted -/
+def refundRun (pid : Nat) (s : State) : Except Err State :=
+  match refundWalk (depsOf s.deps pid) s.gov s.bal with
+  | none => .error (.halt "refund: insufficient module balance")
+  | some (g, b, rm) =>
+    .ok { s with gov := g, bal := b, deps := if rm then depsNot s.deps pid else s.deps,
+                 settled := s.settled ++ (depsOf s.deps pid).map (fun d => ⟨d.pid, d.who, d.amt, .refund⟩) }
+
+/-- the walk of `DeleteAndBurnDeposits`: (`coinsToBurn`, every visited record removed) -/
+def burnWalk : List Dep → Nat × Bool
+  | [] => (0, true)
+  | d :: r =>
+    let (sum, rm) := burnWalk r
+    ((if sdkBurnCallback.contains "accumulate" then d.amt else 0) + sum, sdkBurnCallback.contains "remove" && rm)
+
+/-- `DeleteAndBurnDeposits`, interpreted: `coinsToBurn := 0`, the walk, one `BurnCoins` of the sum -/
+def burnRun (pid : Nat) (s : State) : Except Err State :=
+  let step (acc : Except Err (State × Nat)) (tag : String) : Except Err (State × Nat) :=
+    match acc with
+    | .error e => .error e
+    | .ok (s, sum) =>
+      if tag == "sum0" then .ok (s, 0)
+      else if tag == "walk" then
+        let (w, rm) := burnWalk (depsOf s.deps pid)
+        .ok ({ s with deps := if rm then depsNot s.deps pid else s.deps,
+                      settled := s.settled ++ (depsOf s.deps pid).map (fun d => ⟨d.pid, d.who, d.amt, .burn⟩) }, sum + w)
+      else if tag == "burnSum" then
+        if s.gov < sum then .error (.halt "burn: insufficient module balance")
+        else .ok ({ s with gov := s.gov - sum, burned := s.burned + sum }, sum)
+      else .ok (s, sum)
+  match sdkBurnSteps.foldl step (.ok (s, 0)) with
+  | .error e => .error e
+  | .ok (s', _) => .ok s'
+
 /-! ## end-blocker -/
 
 /-- inactive queue entry: delete the proposal, refund or burn its deposits -/
@@ -908,7 +1103,7 @@ def step (s : State) : Op → State × String
   | .submit who msgs initial exp => ofExcept s (submit s who msgs initial exp)
   | .deposit pid who amt => ofExcept s (deposit s pid who amt)
   | .depositX pid who fx other => ofExcept s (depositX s pid who fx other)
-  | .cancel pid who => ofExcept s (cancel s pid who)
+  | .cancel pid who => ofExcept s (cancelRun s pid who)
   | .vote pid voter opts => ofExcept s (vote s pid voter opts)
   | .spend who amt =>
     if getBal s.bal who < amt then (s, "err:funds") else ({ s with bal := setBal s.bal who (getBal s.bal who - amt) }, "ok")
